@@ -3,7 +3,7 @@ CONSTANTS
   Accts = {"a1","a2","a3"}
   Denoms = {"aISLM","aLIQUID0"}
   BadDenoms = {"bad"}
-  Amts = {"0","1","2","3"}
+  Amts = {"0","1","2"}
   Ratios <- MC_Ratios
   InitBank = "3"
   MaxLen = 5
